@@ -28,6 +28,8 @@ CONFIGS = {
     "K3": (["-p", "zlib-rs", "--features", "__internal-api,avx512,vpclmulqdq"], "", ["zlib_rs"]),
     "K3b": (["-p", "zlib-rs", "--features", "__internal-api,avx512,vpclmulqdq"],
             "-Ctarget-feature=" + AVX512_TF, ["zlib_rs"]),
+    # experimental printf entry points (need the nightly-only c_variadic feature; the driver runs on nightly)
+    "K5": (["-p", "libz-rs-sys", "--features", "gz,gzprintf"], "", ["zlib_rs", "libz_rs_sys"]),
     "K4": (["-p", "libz-rs-sys", "--no-default-features", "--features", "c-allocator"], "",
            ["zlib_rs", "libz_rs_sys"]),
 }
